@@ -327,15 +327,20 @@ def run(tier, seed):
     class _StopIterSub(StopIteration):
         pass
 
-    for exc_t in (_StopAsyncSub, _RuntimeSub, StopAsyncIteration, RuntimeError, KeyError, _StopIterSub):
-        for handles in (False, True):
+    for exc_t in (_StopAsyncSub, _RuntimeSub, StopAsyncIteration, RuntimeError, KeyError, _StopIterSub, Exception, BaseException):   # (GeneratorExit is treated specially on purpose: C13)
+        for handles in (False, True, "swallow"):
             def one(lib):
                 events = []
 
                 @lib
                 async def ctx():
                     events.append("enter")
-                    if handles:
+                    if handles == "swallow":
+                        try:
+                            yield
+                        except BaseException:  # noqa  (the manager handles whatever the body raised: the call returns None)
+                            events.append("swallowed")
+                    elif handles:
                         try:
                             yield
                         finally:
@@ -361,7 +366,7 @@ def run(tier, seed):
             if ra != rs:
                 fails += 1
                 rep.violation("decorator:body-exception", {"why": "a body raising %s (generator %s): asyncstdlib %r contextlib %r" % (
-                    exc_t.__name__, "with try/finally" if handles else "plain", ra, rs)})
+                    exc_t.__name__, {False: "plain", True: "with try/finally", "swallow": "swallowing the exception"}[handles], ra, rs)})
     # a class-based decorator that provides fresh single-use instances through _recreate_cm; the instances are falsy
     for falsy in (False, True):
         made = []
